@@ -475,13 +475,10 @@ func TestRegression_NodeFailureWhileTheRootIsSendingIsForgotten(t *testing.T) {
 		sql, err, node.Canon(rs), ref, obs)
 	switch {
 	case err != nil:
-		t.Logf("%s no longer reproduces: the query fails with %v", sigFailureForgotten, err)
+		// repaired in /repo (b8d4590, proposed_fix_node_failure_forgotten.diff): the failure of the node is reported
 	case ev.Known(sigFailureForgotten):
 		ev.KnownFinding("C12", sigFailureForgotten+": "+strings.ReplaceAll(what, "\n", " | "))
 	default:
-		// Not listed in known_findings.json (yet): reported by the builder, proposed fix next to this file
-		// (proposed_fix_node_failure_forgotten.diff). The generated fault class hands the failure over after the root
-		// sent its plan, where the tree is correct, so this observation does not fail the check.
-		t.Logf("observation (%s, not listed): %s", sigFailureForgotten, what)
+		t.Fatalf("%s: the failure of a storage node is forgotten, the query returns a partial answer without error\n%s", sigFailureForgotten, what)
 	}
 }
